@@ -4,6 +4,7 @@ package main
 
 import (
 	"fmt"
+	"go/constant"
 	"go/token"
 	"go/types"
 	"sort"
@@ -482,93 +483,93 @@ func (m *Model) RunValSiblings(s *Sink, rule string) {
 			s.Violation(rule, key, m.Pos(fn.Pos()), "%s does not return exactly the value's payload: custom functions would receive a different Go value than the template holds", fnKey(fn))
 		}
 	}
+	// containers: decided by evaluating Val() on an abstract Array of three elements / Obj of three pairs whose own
+	// Val() results are given tokens: the result holds exactly those tokens, in order (by key for the object)
+	strT := m.namedType("object", "Str")
 	for _, c := range []struct{ typ, field string }{{"Array", "Elements"}, {"Obj", "Pairs"}} {
 		fn := m.Method("object", c.typ, "Val")
 		key := fmt.Sprintf("object.(*%s).Val|converts every element recursively", c.typ)
-		if fn == nil {
+		ct := m.namedType("object", c.typ)
+		if fn == nil || ct == nil || strT == nil {
 			s.Undecided(rule, key, "-", "Val not found")
 			continue
 		}
-		loops := naturalLoops(fn)
-		okLoop := len(loops) == 1
-		recursive := false
-		overAll := false
-		if okLoop {
-			li := loops[0]
-			for b := range li.body {
-				for _, in := range b.Instrs {
-					if cl, ok := in.(*ssa.Call); ok && cl.Call.IsInvoke() && cl.Call.Method.Name() == "Val" {
-						recursive = true
-					}
-				}
-			}
-			// no early exit: the only exit is the header's exhaustion edge
-			overAll = true
-			for b := range li.body {
-				if b == li.header {
-					continue
-				}
-				for _, sc := range b.Succs {
-					if !li.body[sc] {
-						overAll = false
-					}
-				}
-			}
-			// ranges over its own field
-			src := false
-			for _, b := range fn.Blocks {
-				for _, in := range b.Instrs {
-					if v, ok := in.(ssa.Value); ok && fieldPathOf(v) == "."+c.field {
-						src = true
-					}
-				}
-			}
-			overAll = overAll && src
-		}
-		// the result starts empty: appending to a pre-sized slice would prepend zero values
-		startsEmpty := true
-		if okLoop {
-			for _, in := range loops[0].header.Instrs {
-				phi, ok := in.(*ssa.Phi)
-				if !ok || phi.Comment == "rangeindex" {
-					continue
-				}
-				fedByAppend := false
-				for _, e := range phi.Edges {
-					if call, ok := e.(*ssa.Call); ok {
-						if bi, ok := call.Call.Value.(*ssa.Builtin); ok && bi.Name() == "append" {
-							fedByAppend = true
-						}
-					}
-				}
-				if !fedByAppend {
-					continue
-				}
-				for i, e := range phi.Edges {
-					if loops[0].body[phi.Block().Preds[i]] {
-						continue
-					}
-					switch x := e.(type) {
-					case *ssa.Const:
-						if !x.IsNil() {
-							startsEmpty = false
-						}
-					case *ssa.MakeSlice:
-						if k, ok := x.Len.(*ssa.Const); !ok || k.Int64() != 0 {
-							startsEmpty = false
-						}
-					default:
-						startsEmpty = false
-					}
-				}
+		fi := -1
+		cst := ct.Underlying().(*types.Struct)
+		for i := 0; i < cst.NumFields(); i++ {
+			if canonFieldName(ct, i, cst.Field(i).Name()) == c.field {
+				fi = i
 			}
 		}
-		if okLoop && recursive && overAll && !startsEmpty {
-			s.Violation(rule, key, m.Pos(fn.Pos()), "%s appends the converted elements to a slice that does not start empty: the Go value handed to custom functions has extra zero elements in front", fnKey(fn))
-		} else if okLoop && recursive && overAll {
-			s.OK(rule, key, m.Pos(fn.Pos()), "one loop over %s with no early exit, each element converted with Val()", c.field)
+		names := []string{"a", "b", "c"}
+		elems := map[string]*iStruct{}
+		vals := map[*iStruct]any{}
+		for _, n := range names {
+			e := &iStruct{typ: strT, fields: map[int]any{}}
+			elems[n] = e
+			vals[e] = constant.MakeString("val-" + n)
+		}
+		recv := &iStruct{typ: ct, fields: map[int]any{}}
+		if c.typ == "Array" {
+			recv.fields[fi] = iSlice{&iArr{elems: []any{elems["a"], elems["b"], elems["c"]}}, 0, 3}
 		} else {
-			s.Violation(rule, key, m.Pos(fn.Pos()), "%s does not convert every element of %s with Val(): nested values would reach custom functions as internal objects or be dropped", fnKey(fn), c.field)
+			mp := &iMap{vals: map[string]any{}, kval: map[string]constant.Value{}}
+			for _, n := range names {
+				k := constant.MakeString(n)
+				mp.keys = append(mp.keys, k.ExactString())
+				mp.vals[k.ExactString()] = elems[n]
+				mp.kval[k.ExactString()] = k
+			}
+			recv.fields[fi] = mp
+		}
+		ip := &Interp{m: m}
+		ip.call = func(cl *ssa.Call, args []any) (any, bool) {
+			if cl.Call.IsInvoke() && cl.Call.Method.Name() == "Val" && len(args) == 1 {
+				if o, ok := args[0].(*iStruct); ok {
+					if v, have := vals[o]; have {
+						return v, true
+					}
+				}
+			}
+			return nil, false
+		}
+		res, known := ip.Run(fn, []any{recv})
+		got, okRes := "", false
+		switch r := res.(type) {
+		case iSlice:
+			okRes = true
+			for _, e := range r.arr.elems[r.lo:r.high] {
+				if cv, isC := e.(constant.Value); isC && cv.Kind() == constant.String {
+					got += constant.StringVal(cv) + ";"
+				} else {
+					got += "?;"
+				}
+			}
+		case *iMap:
+			if r.vals != nil {
+				okRes = true
+				ks := append([]string{}, r.keys...)
+				sort.Strings(ks)
+				for _, k := range ks {
+					if cv, isC := r.vals[k].(constant.Value); isC && cv.Kind() == constant.String {
+						got += constant.StringVal(r.kval[k]) + "=" + constant.StringVal(cv) + ";"
+					} else {
+						got += "?;"
+					}
+				}
+			}
+		}
+		want := "val-a;val-b;val-c;"
+		if c.typ == "Obj" {
+			want = "a=val-a;b=val-b;c=val-c;"
+		}
+		switch {
+		case ip.stuck != "" || !known || !okRes:
+			s.Undecided(rule, key, m.Pos(fn.Pos()), "%s could not be evaluated on an abstract container (%s)", fnKey(fn), ip.stuck)
+		case got == want:
+			s.OK(rule, key, m.Pos(fn.Pos()), "case evaluation: a container of three elements converts to exactly their three Val() results")
+		default:
+			s.Violation(rule, key, m.Pos(fn.Pos()), "%s on a container of three elements yields [%s] instead of their Val() results [%s]: custom functions would receive extra zero values, internal objects or fewer elements", fnKey(fn), got, want)
 		}
 	}
 	_ = token.ADD
